@@ -46,6 +46,8 @@ def filter_profile(pid, r):
     opts = gen.random_opts(r)
     if cfg["g90e"]:
         opts["rel"] = False
+    if pid in ("C01", "C03") and r.random() < 0.5:
+        opts["arcs"] = True         # arcs are where "every sampled point" matters
     if pid == "C02" and r.random() < 0.5:
         regions = []
         cfg["regions"] = []
@@ -59,6 +61,11 @@ def filter_profile(pid, r):
         opts["g92e"] = True
     if pid == "C14":
         opts["at"] = True
+        opts["at_junk"] = True
+        if r.random() < 0.5:
+            # unanchored custom patterns: `match` anchors them at the start of the parameters, a
+            # pattern found later in the text must not trigger the action
+            cfg["at"] = [("ExcludeRegion", "off", "disable_exclusion"), ("ExcludeRegion", "on", "enable_exclusion")]
     if r.random() < 0.3:
         opts["later_regions"] = [("R", "late%d" % i, 28.0 + 10 * i, 28.0, 33.0 + 10 * i, 33.0) for i in range(2)]
         opts["addregion"] = True
